@@ -2,7 +2,7 @@
 
 INTERFACE (shared by the checks C01, C09, C12, C17)
 
-  dumps = impl.dump(exe, texts, ['min', 'tables', 'script'], ['bash'])        # cg-dump
+  dumps = impl.dump(exe, texts, ['min', 'tables', 'script'], ['bash'])        # cg-dump (MIN is needed: accepting states)
   case  = t2.Case(dumps[i]['bash'], queries, wordbreaks=None|'', probes={k: [line, ...]})
             queries    list of (words_before_cursor, prefix)
             wordbreaks None = bash's default COMP_WORDBREAKS, or an explicit value
@@ -46,6 +46,7 @@ REPAIRED_LINES = 'while IFS= read -r line; do printf \'%s\\n\' "${line%%$\'\\t\'
 REPAIRED_STOP = ('                if [[ $mode = complete && -v "state_transitions[$literal_id]" && $literal == "$subword"* ]]; then\n'
                  '                    break 2\n')
 OLD_LINES = 'while read -r f1 _; do echo "$f1"; done'
+ACCEPTING_TEST = '            if [[ $mode != matches || -v "accepting_states[$subword_state]" ]]; then\n                matched=1\n'
 
 
 def detect_variant(script):
@@ -56,7 +57,7 @@ def detect_variant(script):
     if REPAIRED_RESET in script:
         if OLD_LINES in script or 'if [[ $(($word_index + 1)) == $cword ]]' in script:
             return None
-        if '_subword () {' in script and REPAIRED_STOP not in script:
+        if '_subword () {' in script and (REPAIRED_STOP not in script or ACCEPTING_TEST not in script):
             return None
         return 'repaired'
     if '_subword () {' not in script:
@@ -98,6 +99,31 @@ class Res:
         self.status = None
 
 
+def with_subaccepting(tables_text, min_text):
+    """TABLES payload + `(subaccepting (script-id state ...) ...)`: the accepting states of every within-word automaton,
+    read from the MIN stage (`(subdfas (dfa .. (acc ..)) ...)`, pool order) and keyed by the script id of TABLES'
+    `(subwords (poolidx scriptid ..))`.  The emitted script carries them as `local -A accepting_states` (df274e8).
+    If the dump already has the field, it is returned unchanged."""
+    if '(subaccepting' in tables_text:
+        return tables_text
+    tsx = sexp.parse(tables_text)
+    subs = [x for x in tsx if isinstance(x, list) and x and x[0] == 'subwords'][0][1:]
+    rows = []
+    if subs:
+        if not min_text:
+            return None
+        msx = sexp.parse(min_text)
+        if msx[0] != 'ok':
+            return None
+        subd = [x for x in msx[1] if isinstance(x, list) and x and x[0] == 'subdfas'][0][1:]
+        for sw in subs:
+            pool, sid = int(sw[0]), int(sw[1])
+            acc = [x for x in subd[pool] if isinstance(x, list) and x and x[0] == 'acc'][0][1:]
+            rows.append('(%d %s)' % (sid, ' '.join(str(a) for a in acc)))
+    assert tables_text.endswith(')')
+    return tables_text[:-1] + ' (subaccepting%s))' % ''.join(' ' + r for r in rows)
+
+
 class Case:
     def __init__(self, stages, queries, wordbreaks=None, probes=None, outputs=None, cmd='cmd', ignore_case=False):
         self.stages = stages
@@ -122,7 +148,10 @@ class Case:
             self.note = 'no script/tables'
             return
         self.script = str(sexp.parse(st['SCRIPT']))
-        self.tables = st['TABLES']
+        self.tables = with_subaccepting(st['TABLES'], st.get('MIN'))
+        if self.tables is None:
+            self.note = 'within-word automata but no MIN stage in the dump (accepting states unknown)'
+            return
         tsx = sexp.parse(self.tables)
         self.cid_to_probe = probe_ids(tsx)
         m = re.search(r'^    local state=(\d+)$', self.script, re.M)
